@@ -14,6 +14,7 @@ ASSUMPTIONS = [
 ]
 
 CLAUSES = {
+    "direct:cancelled": "exactly_once",
     "direct:overwrite": "exactly_once",
     "direct:reset": "exactly_once",          # Session.Reset without clean session wipes stored inbound messages
     "direct:delivery": "qos01",              # a callback is set but the message just received was not passed to it
